@@ -19,7 +19,7 @@ POSS = ['x', 'y']
 def plan(tier, seed):
     specs = [(1, 2), (2, 2), (3, 1), (4, 1), (5, 0)] if tier == 'quick' else [(1, 3), (2, 2), (3, 2), (4, 1), (5, 1), (6, 0)]
     dev = 2
-    chunks = sweep.shape_chunks(specs, per_chunk=16, kind='single', dev=dev)
+    chunks = sweep.shape_chunks(specs, per_chunk=16, big=True, kind='single', dev=dev)
     pool_n = 3
     chunks.append({'kind': 'pairs', 'n': pool_n, 'k': 2 if tier == 'quick' else 3})
     return {
